@@ -273,7 +273,9 @@ def _own_and_nested_locals(node):
         params.add(a.vararg.arg)
     if a.kwarg:
         params.add(a.kwarg.arg)
-    names = set(_local_names(node)[0]) - params
+    # parameters other than self / cls take part too (a renamed parameter; keyword arguments of callers are
+    # translated when they are bound: Interp.bind_args)
+    names = set(_local_names(node)[0]) - {p for p in params if p in ('self', 'cls')}
     for n in ast.walk(node):
         if n is not node and isinstance(n, (ast.FunctionDef, ast.AsyncFunctionDef, ast.Lambda)):
             names |= set(_local_names(n)[0])
@@ -294,7 +296,7 @@ def _own_and_nested_locals(node):
             fixed.add(n.name)
         elif isinstance(n, (ast.Global,)):
             fixed.update(n.names)
-    return names - fixed - params
+    return names - fixed - {p for p in params if p in ('self', 'cls')}
 
 
 def _identifier_slots(node):
@@ -353,9 +355,20 @@ def _with_pinned_local_names(node, modname, filename):
     if not pin:
         return node
     digest, order = alpha_signature(node)
-    if digest != pin['alpha'] or order == pin['order'] or len(order) != len(pin['order']):
-        return node
-    mapping = dict(zip(order, pin['order']))
+    if digest == pin['alpha'] and order != pin['order'] and len(order) == len(pin['order']):
+        mapping = dict(zip(order, pin['order']))
+    else:
+        # not the pinned function up to renaming; renamed PARAMETERS alone (same number, same kinds) are still
+        # put back: contracts name parameters
+        a = node.args
+        cur = [x.arg for x in a.posonlyargs + a.args + a.kwonlyargs]
+        old = pin.get('params')
+        if not old or len(old) != len(cur) or old == cur or \
+                [len(a.posonlyargs), len(a.args), len(a.kwonlyargs)] != pin.get('param_kinds'):
+            return node
+        mapping = {c: o for c, o in zip(cur, old) if c != o}
+        if set(mapping) & set(old) or len(set(mapping.values())) != len(mapping):
+            return node         # a permutation of names: not handled
     # no capture: a pinned name that is put back must not be in use for something else in the new text
     others = set()
     for obj, attr in _identifier_slots(node):
@@ -374,6 +387,9 @@ def _with_pinned_local_names(node, modname, filename):
         elif v in mapping:
             setattr(obj, attr, mapping[v])
     tree._pv_renamed_locals = {k: v for k, v in mapping.items() if k != v}
+    a = node.args
+    own_params = {x.arg for x in a.posonlyargs + a.args + a.kwonlyargs}
+    tree._pv_renamed_params = {k: v for k, v in tree._pv_renamed_locals.items() if k in own_params}
     return tree
 
 
